@@ -342,6 +342,74 @@ pub fn quit_mode_never_delivers_nul(prefix_bytes: usize, tail: &[u8], invert: bo
     r.is_ok() && !sink.bad
 }
 
+/// C14 with passthru: every line is delivered (as a match or as `Other` context), also beyond the 64 KiB sniff
+pub fn quit_mode_passthru_never_delivers_nul(prefix_bytes: usize, tail: &[u8], invert: bool, reader: bool) -> bool {
+    let mut input: Vec<u8> = Vec::with_capacity(prefix_bytes + tail.len());
+    for _ in 0..prefix_bytes / 8 { input.extend_from_slice(b"filler.\n"); }
+    if prefix_bytes % 8 > 0 {
+        for _ in 0..prefix_bytes % 8 - 1 { input.push(b'y'); }
+        input.push(b'\n');
+    }
+    input.extend_from_slice(tail);
+    let mut searcher = SearcherBuilder::new().line_number(true).invert_match(invert).passthru(true)
+        .binary_detection(BinaryDetection::quit(0)).build();
+    let mut sink = NoNul { bad: false, events: 0 };
+    let r = if reader {
+        searcher.search_reader(ByteMatcher(b'x'), Chunked { data: &input, pos: 0, chunk: 4096 }, &mut sink)
+    } else {
+        searcher.search_slice(ByteMatcher(b'x'), &input, &mut sink)
+    };
+    r.is_ok() && !sink.bad
+}
+
+/// C02: a line longer than the line buffer's initial capacity (the buffer has to grow), read in short pieces,
+/// followed by a few short lines: the reader strategy delivers what the slice strategy delivers
+pub fn long_line_reader_agrees(tail: &[u8], chunk: usize, invert: bool, after: usize) -> bool {
+    let mut input = vec![b'y'; 70_000];
+    input.push(b'\n');
+    input.extend_from_slice(tail);
+    let mk = || SearcherBuilder::new().line_number(true).invert_match(invert).after_context(after).build();
+    let mut a = Rec::new(&input, MAXEV);
+    let ra = mk().search_slice(ByteMatcher(b'x'), &input, &mut a);
+    let mut b = Rec::new(&input, MAXEV);
+    let rb = mk().search_reader(ByteMatcher(b'x'), Chunked { data: &input, pos: 0, chunk }, &mut b);
+    ra.is_ok() && rb.is_ok() && !a.bad_bytes && !b.bad_bytes && a.n == b.n && a.finished == b.finished
+        && a.evs[..core::cmp::min(a.n + 1, MAXEV)] == b.evs[..core::cmp::min(b.n + 1, MAXEV)]
+}
+
+/// C16 for the reader strategy: a sink that answers `false` at event r gets exactly the first r+1 deliveries
+/// of the uninterrupted reader run, then finish once, and nothing afterwards
+pub fn reader_refusal_prefix(input: &[u8], invert: bool, after: usize, before: usize, chunk: usize) -> bool {
+    let mk = || SearcherBuilder::new().line_number(true).invert_match(invert).after_context(after).before_context(before).build();
+    let mut full = Rec::new(input, MAXEV * 4);
+    if mk().search_reader(ByteMatcher(b'x'), Chunked { data: input, pos: 0, chunk }, &mut full).is_err() { return false; }
+    if full.n >= MAXEV { return true; }
+    for r in 0..full.n {
+        let mut p = Rec::new(input, r);
+        if mk().search_reader(ByteMatcher(b'x'), Chunked { data: input, pos: 0, chunk }, &mut p).is_err() { return false; }
+        if p.n != r + 1 || p.after_stop != 0 || p.finished != 1 || p.evs[..=r] != full.evs[..=r] { return false; }
+    }
+    true
+}
+
+/// state carried over: a Searcher that has already run a reader search on another input delivers, for this
+/// input, what a fresh Searcher delivers (reader and slice)
+pub fn reused_searcher_agrees(input: &[u8], invert: bool, ctx: usize) -> bool {
+    let mk = || SearcherBuilder::new().line_number(true).invert_match(invert).after_context(ctx).before_context(ctx).build();
+    let mut fresh = Rec::new(input, MAXEV * 4);
+    if mk().search_slice(ByteMatcher(b'x'), input, &mut fresh).is_err() { return false; }
+    let other: &[u8] = b"ax\nxa\na";
+    let mut used = mk();
+    let mut r0 = Rec::new(other, 1); // the first search is even stopped early by its sink
+    if used.search_reader(ByteMatcher(b'x'), Chunked { data: other, pos: 0, chunk: 3 }, &mut r0).is_err() { return false; }
+    let mut r1 = Rec::new(input, MAXEV * 4);
+    if used.search_reader(ByteMatcher(b'x'), Chunked { data: input, pos: 0, chunk: 2 }, &mut r1).is_err() { return false; }
+    let mut r2 = Rec::new(input, MAXEV * 4);
+    if used.search_slice(ByteMatcher(b'x'), input, &mut r2).is_err() { return false; }
+    let m = core::cmp::min(fresh.n + 1, MAXEV);
+    !r1.bad_bytes && !r2.bad_bytes && r1.n == fresh.n && r2.n == fresh.n && r1.evs[..m] == fresh.evs[..m] && r2.evs[..m] == fresh.evs[..m]
+}
+
 /// a reader that fails at its `fail_at`-th read call (persistently), handing out `chunk` bytes per read before
 pub struct Failing<'a> { pub data: &'a [u8], pub pos: usize, pub chunk: usize, pub calls: usize, pub fail_at: usize }
 impl<'a> std::io::Read for Failing<'a> {
@@ -445,6 +513,29 @@ pub fn replay_main() -> i32 {
     let ctx: usize = std::env::var("VERIF_REPLAY_CTX").ok().and_then(|v| v.parse().ok()).unwrap_or(0);
     let after: usize = std::env::var("VERIF_REPLAY_AFTER").ok().and_then(|v| v.parse().ok()).unwrap_or(ctx);
     let before: usize = std::env::var("VERIF_REPLAY_BEFORE").ok().and_then(|v| v.parse().ok()).unwrap_or(ctx);
+    {
+        let g = |k: &str| std::env::var(k).ok().and_then(|v| v.parse::<usize>().ok()).unwrap_or(0);
+        if std::env::var("VERIF_REPLAY_RREFUSAL").is_ok() {
+            let ok = reader_refusal_prefix(&bytes, inv, after, before, g("VERIF_REPLAY_RCHUNK"));
+            println!("replay: reader run of {:?} with a sink refusing at each event in turn: {}", bytes, if ok { "prefix property holds" } else { "VIOLATED" });
+            return if ok { 0 } else { 1 };
+        }
+        if std::env::var("VERIF_REPLAY_REUSE").is_ok() {
+            let ok = reused_searcher_agrees(&bytes, inv, g("VERIF_REPLAY_CTX"));
+            println!("replay: reused searcher on {:?}: {}", bytes, if ok { "agrees with a fresh one" } else { "DIFFERS from a fresh one" });
+            return if ok { 0 } else { 1 };
+        }
+        if std::env::var("VERIF_REPLAY_LONGLINE").is_ok() {
+            let ok = long_line_reader_agrees(&bytes, g("VERIF_REPLAY_LCHUNK"), inv, after);
+            println!("replay: 70000-byte line then {:?}, reads of {} bytes: {}", bytes, g("VERIF_REPLAY_LCHUNK"), if ok { "reader agrees with slice" } else { "reader DIFFERS from slice" });
+            return if ok { 0 } else { 1 };
+        }
+        if std::env::var("VERIF_REPLAY_BINPASS").is_ok() {
+            let ok = quit_mode_passthru_never_delivers_nul(g("VERIF_REPLAY_PREFIX"), &bytes, inv, g("VERIF_REPLAY_READER") != 0);
+            println!("replay: quit mode with passthru: {}", if ok { "no NUL delivered" } else { "A NUL BYTE WAS DELIVERED" });
+            return if ok { 0 } else { 1 };
+        }
+    }
     if std::env::var("VERIF_REPLAY_STRATEGY").is_ok() {
         return if strategy_choice_ok() { println!("replay: strategy choice agrees in all 216 cases"); 0 } else { 1 };
     }
@@ -545,6 +636,12 @@ fn exhaustive_small_mode() -> bool {
                             return false;
                         }
                     }
+                    if !reader_refusal_prefix(&t[..n], inv, after, before, chunk) {
+                        println!("FAILING CASE reader-refusal input={:?} invert={} after={} before={} chunk={}: a sink refusing at some event of the reader run is handed more (or something else) than the first deliveries, or finish is not signalled exactly once", &t[..n], inv, after, before, chunk);
+                        println!("VERIF_REPLAY_FAST={} VERIF_REPLAY_HEX={} VERIF_REPLAY_INVERT={} VERIF_REPLAY_AFTER={} VERIF_REPLAY_BEFORE={} VERIF_REPLAY_RCHUNK={} VERIF_REPLAY_RREFUSAL=1",
+                            fast_flag(), t[..n].iter().map(|b| format!("{:02x}", b)).collect::<String>(), inv as u8, after, before, chunk);
+                        return false;
+                    }
                     if !reader_agrees(&t[..n], b'x', inv, after, before, chunk) {
                         println!("FAILING CASE reader-vs-slice input={:?} invert={} after={} before={} chunk={}", &t[..n], inv, after, before, chunk);
                         println!("VERIF_REPLAY_FAST={} VERIF_REPLAY_HEX={} VERIF_REPLAY_INVERT={} VERIF_REPLAY_AFTER={} VERIF_REPLAY_BEFORE={} VERIF_REPLAY_CHUNK={}",
@@ -553,6 +650,32 @@ fn exhaustive_small_mode() -> bool {
                     }
                 }
             }}}
+        }
+    }
+    // state carried over in a reused Searcher; a line longer than the initial buffer capacity
+    {
+        let mut t = [0u8; 4];
+        for n in 0..=4usize {
+            for code in 0..3usize.pow(n as u32) {
+                let mut c = code;
+                for i in 0..n { t[i] = alpha[c % 3]; c /= 3; }
+                for inv in [false, true] { for ctx in 0..2usize {
+                    if !reused_searcher_agrees(&t[..n], inv, ctx) {
+                        println!("FAILING CASE reused-searcher input={:?} invert={} context={}: a Searcher that searched another input before delivers something else than a fresh one", &t[..n], inv, ctx);
+                        println!("VERIF_REPLAY_FAST={} VERIF_REPLAY_HEX={} VERIF_REPLAY_INVERT={} VERIF_REPLAY_CTX={} VERIF_REPLAY_REUSE=1", fast_flag(), t[..n].iter().map(|b| format!("{:02x}", b)).collect::<String>(), inv as u8, ctx);
+                        return false;
+                    }
+                }}
+                if n <= 3 {
+                    for chunk in [4096usize, 30000] { for inv in [false, true] { for after in 0..2usize {
+                        if !long_line_reader_agrees(&t[..n], chunk, inv, after) {
+                            println!("FAILING CASE long-line tail={:?} chunk={} invert={} after={}: after a 70000-byte line the reader strategy delivers something else than the slice strategy", &t[..n], chunk, inv, after);
+                            println!("VERIF_REPLAY_FAST={} VERIF_REPLAY_HEX={} VERIF_REPLAY_INVERT={} VERIF_REPLAY_AFTER={} VERIF_REPLAY_LCHUNK={} VERIF_REPLAY_LONGLINE=1", fast_flag(), t[..n].iter().map(|b| format!("{:02x}", b)).collect::<String>(), inv as u8, after, chunk);
+                            return false;
+                        }
+                    }}}
+                }
+            }
         }
     }
     // C14: inputs over {x, \n, a, NUL} up to 4 bytes, directly, behind a 72 KiB prefix of filler lines, and
@@ -565,6 +688,13 @@ fn exhaustive_small_mode() -> bool {
             let mut c = code;
             for i in 0..n { u[i] = alpha4[c % 4]; c /= 4; }
             if !u[..n].contains(&0) { continue; }
+            for prefix in [0usize, 73728, 65533, 65534, 65535] { for inv in [false, true] { for reader in [false, true] {
+                if !quit_mode_passthru_never_delivers_nul(prefix, &u[..n], inv, reader) {
+                    println!("FAILING CASE binary-quit-passthru prefix_bytes={} tail={:?} invert={} reader={}: a NUL byte was delivered", prefix, &u[..n], inv, reader);
+                    println!("VERIF_REPLAY_FAST={} VERIF_REPLAY_HEX={} VERIF_REPLAY_INVERT={} VERIF_REPLAY_PREFIX={} VERIF_REPLAY_READER={} VERIF_REPLAY_BINPASS=1", fast_flag(), u[..n].iter().map(|b| format!("{:02x}", b)).collect::<String>(), inv as u8, prefix, reader as u8);
+                    return false;
+                }
+            }}}
             for prefix in [0usize, 73728, 65533, 65534, 65535] { for inv in [false, true] { for after in 0..2usize { for before in 0..2usize {
                 for son in [false, true] { for reader in [false, true] {
                     if !quit_mode_never_delivers_nul(prefix, &u[..n], inv, after, before, son, reader) {
